@@ -378,3 +378,51 @@ impl Storage for ModelStore {
         Ok(out.into_iter())
     }
 }
+
+/// A second storage *type* over the same model store, for nodes that host two store extensions: the RPC services of
+/// an extension are generic over the storage type, and two extensions on one node are told apart by it.
+#[derive(Clone, Default)]
+pub struct SideStore(pub ModelStore);
+
+#[async_trait::async_trait]
+impl Storage for SideStore {
+    type Error = StoreError;
+    type DocsIter = std::vec::IntoIter<Document>;
+    type MetadataIter = std::vec::IntoIter<(Key, HLCTimestamp, bool)>;
+
+    async fn get_keyspace_list(&self) -> Result<Vec<String>, Self::Error> {
+        self.0.get_keyspace_list().await
+    }
+
+    async fn iter_metadata(&self, keyspace: &str) -> Result<Self::MetadataIter, Self::Error> {
+        self.0.iter_metadata(keyspace).await
+    }
+
+    async fn remove_tombstones(&self, keyspace: &str, keys: impl Iterator<Item = Key> + Send) -> Result<(), BulkMutationError<Self::Error>> {
+        self.0.remove_tombstones(keyspace, keys).await
+    }
+
+    async fn put(&self, keyspace: &str, document: Document) -> Result<(), Self::Error> {
+        self.0.put(keyspace, document).await
+    }
+
+    async fn multi_put(&self, keyspace: &str, documents: impl Iterator<Item = Document> + Send) -> Result<(), BulkMutationError<Self::Error>> {
+        self.0.multi_put(keyspace, documents).await
+    }
+
+    async fn mark_as_tombstone(&self, keyspace: &str, doc_id: Key, timestamp: HLCTimestamp) -> Result<(), Self::Error> {
+        self.0.mark_as_tombstone(keyspace, doc_id, timestamp).await
+    }
+
+    async fn mark_many_as_tombstone(&self, keyspace: &str, documents: impl Iterator<Item = DocumentMetadata> + Send) -> Result<(), BulkMutationError<Self::Error>> {
+        self.0.mark_many_as_tombstone(keyspace, documents).await
+    }
+
+    async fn get(&self, keyspace: &str, doc_id: Key) -> Result<Option<Document>, Self::Error> {
+        self.0.get(keyspace, doc_id).await
+    }
+
+    async fn multi_get(&self, keyspace: &str, doc_ids: impl Iterator<Item = Key> + Send) -> Result<Self::DocsIter, Self::Error> {
+        self.0.multi_get(keyspace, doc_ids).await
+    }
+}
